@@ -80,6 +80,18 @@ pub enum Ev {
     OpStart { c: usize, i: usize },
     OpEnd { c: usize, i: usize, res: Res },
     Note(String),
+    /// what the world looks like for actor `a` at the moment a waiter returned
+    Snap {
+        a: usize,
+        status: u8,
+        name_hit: bool,
+        pid_hit: bool,
+        in_groups: Vec<u8>,
+        pointed_at_by: Vec<usize>,
+        own_children: usize,
+        has_supervisor: bool,
+        listed_by: Vec<usize>,
+    },
     /// status of actor `a` as sampled after a gate step (logged on change only)
     Status { a: usize, st: u8 },
 }
@@ -217,6 +229,9 @@ pub struct ActorSpec {
     /// after running the supervision script behave like the default handler (stop on child exit)
     pub sup_stops: bool,
     pub reply: Vec<ReplyPolicy>,
+    /// the actor's state panics when dropped (a user-level fault inside ractor's exit path)
+    #[serde(default)]
+    pub state_drop_panics: bool,
 }
 
 impl ActorSpec {
@@ -378,6 +393,15 @@ pub struct St {
     sup_handled: u32,
     self_seq: u32,
     kept: Vec<RpcReplyPort<u64>>,
+}
+
+impl Drop for St {
+    fn drop(&mut self) {
+        if self.w.specs[self.me].state_drop_panics && !std::thread::panicking() {
+            log(Ev::Note(format!("state-drop-panic a{}", self.me)));
+            panic!("boom state drop a{}", self.me);
+        }
+    }
 }
 
 struct CbGuard {
@@ -1098,10 +1122,56 @@ pub async fn exec_op(w: &Arc<World>, c: usize, i: usize, op: &Op) -> Res {
     }
 }
 
+pub const N_GROUPS: u8 = 4;
+
+/// Log what the rest of the system still says about actor `a`
+pub fn snapshot(w: &World, a: usize) {
+    let Some(cell) = w.cell(a) else { return };
+    let id = cell.get_id();
+    let name_hit = w.specs[a].name.map_or(false, |n| ractor::registry::where_is(w.name(n)).map_or(false, |c| c.get_id() == id));
+    let pid_hit = ractor::registry::where_is_pid(id).is_some();
+    let mut in_groups = vec![];
+    for g in 0..N_GROUPS {
+        if ractor::pg::get_members(&w.group(g)).iter().any(|c| c.get_id() == id) {
+            in_groups.push(g);
+        }
+    }
+    let mut pointed_at_by = vec![];
+    let mut listed_by = vec![];
+    for (i, c) in w.all_cells() {
+        if c.try_get_supervisor().map_or(false, |s| s.get_id() == id) {
+            pointed_at_by.push(i);
+        }
+        if c.get_children().iter().any(|ch| ch.get_id() == id) {
+            listed_by.push(i);
+        }
+    }
+    log(Ev::Snap {
+        a,
+        status: cell.get_status() as u8,
+        name_hit,
+        pid_hit,
+        in_groups,
+        pointed_at_by,
+        own_children: cell.get_children().len(),
+        has_supervisor: cell.try_get_supervisor().is_some(),
+        listed_by,
+    });
+}
+
 pub async fn run_client(w: Arc<World>, c: usize, ops: Vec<Op>) {
     for (i, op) in ops.iter().enumerate() {
         log(Ev::OpStart { c, i });
         let res = exec_op(&w, c, i, op).await;
+        // a waiter returned: record the world as it is at this very moment (same gate step)
+        match op {
+            Op::Wait { to, .. } | Op::StopAndWait { to, .. } | Op::KillAndWait { to, .. } | Op::DrainAndWait { to, .. } | Op::AwaitHandle(to)
+                if res != Res::Skipped =>
+            {
+                snapshot(&w, *to as usize)
+            }
+            _ => {}
+        }
         log(Ev::OpEnd { c, i, res });
         yield_once().await;
     }
@@ -1299,7 +1369,7 @@ impl Default for ExecOpts {
 pub fn exec_scenario(
     sc: &Scenario,
     opts: ExecOpts,
-    mut per_step: impl FnMut(&Arc<World>, u64, u64) + 'static,
+    per_step: impl FnMut(&Arc<World>, u64, u64) + 'static,
     probe: impl FnOnce(&Arc<World>) -> Vec<String> + 'static,
 ) -> Exec {
     let sc2 = sc.clone();
@@ -1309,7 +1379,9 @@ pub fn exec_scenario(
             w.init_tl();
         }
         let w2 = w.clone();
-        let (end_main, handles) = run_clients(&mut env, &w, &sc2.clients, 20_000, |s, t| per_step(&w2, s, t)).await;
+        let per_step_cell = std::rc::Rc::new(RefCell::new(per_step));
+        let ps0 = per_step_cell.clone();
+        let (end_main, handles) = run_clients(&mut env, &w, &sc2.clients, 20_000, move |s, t| (ps0.borrow_mut())(&w2, s, t)).await;
         let mut client_panic = None;
         for h in handles {
             if h.is_finished() {
@@ -1321,7 +1393,9 @@ pub fn exec_scenario(
             }
         }
         if opts.settle && end_main == DriveEnd::Done {
-            settle(&mut env).await;
+            let w3 = w.clone();
+            let ps = per_step_cell.clone();
+            settle_with(&mut env, move |s, t| (ps.borrow_mut())(&w3, s, t)).await;
         }
         let probe_out = probe(&w);
         let cut = trace_len();
